@@ -124,6 +124,19 @@ claim('C14',
       'TLA+ spec (Static.tla) + TLC exhaustive + fault-injection replay of every TLC-enumerated behaviour',
       'DESIGN.md 3/C14')
 
+claim('C15',
+      'BuiltinMw.tla models a response travelling outward through an ordered stack of built-in middlewares (one action each); only gzip '
+      'may change the representation and only for clients whose Accept-Encoding accepts gzip; TLC checks Transparent, '
+      'EncodedOnlyIfAccepted, VaryWhenEncoded over all stacks x 16 scenarios x 7 Accept-Encoding classes, and enumerates the stacks for '
+      'the conformance leg. Differential replay: the scenario application (Responses incl. 100 kB compressible / random / empty, rendered '
+      'contexts, HEAD, redirect, raised/returned 4xx/5xx, non-breaking error, uncaught exception, unknown URL, wrong method) is built with '
+      'and without each stack; every scenario x Accept-Encoding class is sent to both, bodies are gunzipped, and TLC judges each record '
+      '(status equal, decoded body equal, Content-Encoding/Content-Length/Vary rules; BuiltinMw_Trace).',
+      'Trusted: TLC; the stdlib gzip decoder; the traceback depth printed in the default 500 body is normalised (a middleware adds frames); '
+      'parameter extractors are given one parameter name, profiler without trigger.',
+      'TLA+ spec (BuiltinMw.tla) + TLC exhaustive + differential replay with record validation (BuiltinMw_Trace.tla); gzip round trip projection-decided',
+      'DESIGN.md 3/C15')
+
 claim('C16',
       'Cookie.tla models signed-cookie sessions: clients with a jar entry (server-issued token / garbage / nothing), tokens [data, expiry], '
       'a clock, requests (set/del/clear/read), tampering and forging (12 kinds), replay of old tokens; Present(jar) = the token\'s data iff it '
